@@ -17,11 +17,33 @@ for c in selftest/canaries/$prop-*.patch; do
     echo "SELFTEST-SKIPPED canary=$(basename $c) (patch no longer applies to the current tree)"
   else
     ev=$(mktemp -d /tmp/selftest-ev.XXXXXX)
-    DVC_EVIDENCE_DIR=$ev ./bin/dvc check $prop --repo $wt --tier quick > $ev/out 2>&1; crc=$?
+    DVC_NO_REPLAY=1 DVC_EVIDENCE_DIR=$ev ./bin/dvc check $prop --repo $wt --tier quick > $ev/out 2>&1; crc=$?
     if [ $crc -eq 1 ] && grep -q "^VIOLATION property=$prop" $ev/out; then
       echo "selftest ok: canary=$(basename $c) is reported ($(grep -c '^VIOLATION' $ev/out) violation lines)"
     else
       echo "SELFTEST-FAILED canary=$(basename $c): the check did not report the re-introduced defect (exit $crc)"; rc=2
+    fi
+    rm -rf $ev
+  fi
+  git -C /repo worktree remove --force $wt >/dev/null 2>&1; rm -rf $wt
+done
+# Replay canaries: changes whose violation the replay driver must confirm on the real code (a VIOLATION line that does
+# not end in no-failing-input-found).  A replay canary that is reported but no longer confirmed means the replay driver
+# has lost its reach: reported as SELFTEST-FAILED as well.
+for c in selftest/replay/$prop-*.patch; do
+  [ -e "$c" ] || continue
+  n=$((n+1))
+  wt=$(mktemp -d /tmp/selftest-$prop.XXXXXX); rmdir $wt
+  git -C /repo worktree add -q --detach $wt HEAD || { echo "SELFTEST-ERROR cannot create worktree"; rc=2; continue; }
+  if ! git -C $wt apply "$(readlink -f $c)" 2>/dev/null; then
+    echo "SELFTEST-SKIPPED replay canary=$(basename $c) (patch no longer applies to the current tree)"
+  else
+    ev=$(mktemp -d /tmp/selftest-ev.XXXXXX)
+    DVC_REPLAY_DIR=$ev/replay DVC_EVIDENCE_DIR=$ev ./bin/dvc check $prop --repo $wt --tier quick > $ev/out 2>&1; crc=$?
+    if [ $crc -eq 1 ] && grep "^VIOLATION property=$prop" $ev/out | grep -qv "no-failing-input-found"; then
+      echo "selftest ok: replay canary=$(basename $c) is reported and confirmed on the real code"
+    else
+      echo "SELFTEST-FAILED replay canary=$(basename $c): no violation with a failing input was reported (exit $crc)"; rc=2
     fi
     rm -rf $ev
   fi
